@@ -22,6 +22,8 @@ WATCH_FILES = ("ak/ppobj.py", "ak/color.py")
 REQUIRED_PROBES = ("probes", "probe_fresh", "probe_printed", "probe_inflight", "probe_ranged_printed",
                    "noop_assign_inflight", "ctor_roundtrips", "setter_roundtrips", "tasks_completed")
 
+REAL_VS_STUB = {'real': ['ak.color, ak.ppobj, ak.hdoc, ak.ghist (report building and formatting), ak.mcaller_http (help of method callers)'], 'stub': ['id() as seen by ak.ppobj/ak.color/ak.hdoc/ak.ghist -> simulated allocator with adversarial re-use', 'cyclic GC timing -> gc.disable() + scheduled gc.collect()', 'the git repository behind ProjectRepo -> deterministic in-memory fake (sim/fakegit.py)', 'process-global state -> one fresh forked process per run, one pristine forked process per reference rendering', 'ssl.SSLContext.load_default_certs -> no-op; logging disabled']}
+
 RULE = ("each run = one table (2-5 fields, 0-12 records, shared enum field type, titles, header/footer, explicit fields or "
         "namedtuples) with a generated format (fixed and ranged widths, /modifier, break-by !, repeated fields, hidden "
         ":-1 columns, limits n:m, *) living through 10-30 seeded ops: render, start/step/drain/abandon line tasks, "
